@@ -41,6 +41,13 @@ func main() {
 		}
 		dev, _ := strconv.Atoi(os.Args[3])
 		checks.C07Shard(os.Args[2], dev)
+	case "c16shard":
+		if len(os.Args) < 5 {
+			usage()
+		}
+		sh, _ := strconv.Atoi(os.Args[3])
+		n, _ := strconv.Atoi(os.Args[4])
+		checks.C16Shard(os.Args[2], sh, n)
 	case "variant":
 		if len(os.Args) < 3 || checks.Get(os.Args[2]) == nil {
 			usage()
